@@ -161,6 +161,30 @@ def run(chk):
                     oracle_bad.append(dict(info, what=f"result changes under {tname}", expected=np.asarray(want).tolist(),
                                            observed=np.asarray(got).tolist()))
             distinct.add((fam, ename))
+    # vmap over the INPUT COORDINATES (each row sorted, so the sortedness check of the scalable solver must stay silent), alone and under jit
+    Xs = jnp.asarray(np.sort(rng.uniform(0.0, 5.0, size=(3, 5)), axis=1))
+    for fam, kf in (("quasisep", kq), ("dense", kd)):
+        for ename in ("log_probability", "condition.loc", "condition.variance", "predict var", "sample"):
+            f = entry_points[ename]
+            def whole_x(xx, yy, kf=kf, f=f):
+                k = kf(params[0])
+                gp = GaussianProcess(k, xx, diag=0.1 + 0.1 * params[0][1], mean=params[0][0])
+                return f(k, gp, yy)
+            info = dict(family=fam, entry=ename, X=np.asarray(Xs).tolist())
+            try:
+                loop_x = np.stack([np.asarray(whole_x(xx, yy)) for xx, yy in zip(Xs, Y)])
+                vm_x = np.asarray(jax.vmap(whole_x)(Xs, Y))
+                jvm_x = np.asarray(jax.jit(jax.vmap(whole_x))(Xs, Y))
+            except Exception as e:  # noqa: BLE001
+                oracle_bad.append(dict(info, what="a public computation fails under vmap over the (sorted) input coordinates",
+                                       observed=f"{type(e).__name__}: {str(e)[:120]}"))
+                continue
+            for tname, got in (("vmap over X and y", vm_x), ("jit(vmap) over X and y", jvm_x)):
+                n_eval += 1
+                ok, dv = close(got, loop_x, 1e-9)
+                if not ok:
+                    oracle_bad.append(dict(info, what=f"result changes under {tname}", expected=loop_x.tolist(), observed=got.tolist()))
+            distinct.add((fam, ename, "vmap-X"))
     # order sensitivity: nothing created while tracing may leak into later computations -- run under jit FIRST (on array shapes not
     # used before in this process), then eagerly, then under a different jit, for every noise model and both solvers
     from tinygp.solvers import DirectSolver, QuasisepSolver
@@ -213,14 +237,15 @@ def run(chk):
     chk.cov["disagreements_checked"] = n_eval
     chk.cov["rule"] = ("static part: all Python-level boolean tests of the library (regenerated table) enumerated by the Coq theorem; dynamic part: "
                        "9 public entry points x {quasiseparable, dense} kernel expressions x {jit of the enclosing user function, vmap over hyper-parameters "
-                       "(vs loop), vmap over y (vs loop), pytree round trip}; operator overloads with traced scalars; model flatten order vs jax for 12 library objects")
+                       "(vs loop), vmap over y (vs loop), vmap and jit(vmap) over the input coordinates (vs loop), pytree round trip}; operator overloads with traced scalars; model flatten order vs jax for 12 library objects")
     chk.cov["samples"] = [dict(family="quasisep", entry="recondition", transformations=["jit", "vmap", "roundtrip"])]
     chk.cov["classes"] = rep.get("classes")
     chk.cov["correspondence_disagreements"] = len(corr_bad)
     chk.cov["oracle_disagreements"] = len(oracle_bad)
     chk.add_trusted("generator tools/translate/gen_fields.py (dataclasses introspection + ast)", "harness tools/vcheck/props/c14.py (tolerance 1e-9)")
     if oracle_bad:
-        first = min(oracle_bad, key=lambda d: len(str(d)))
+        # a run that fails under a transformation (concrete inputs) is preferred as the replay over a statically flagged source location
+        first = min(oracle_bad, key=lambda d: ("where" in d and "entry" not in d, len(str(d))))
         chk.violation(str(first.get("what")), first, found_input=True)
     elif not gen_ok:
         chk.violation("field/branch table generator failed: " + p.stdout[-300:], dict(kind="generator", message=p.stdout[-800:]), found_input=False)
